@@ -84,6 +84,13 @@ def gen_cases(rng, tier):
                 b = _qty.tok(rng, _qty.amount(rng))
                 ops.append(["q_bin", rng.choice(["mul", "div"]),
                             *rng.sample([f"{a}@{u}", f"{b}@{w}"], 2), mode])
+        # the same operation on the same operands under ANOTHER default mode,
+        # in the same process (nothing about a rounding may be remembered)
+        for o in list(ops):
+            if rng.random() < .25:
+                o2 = list(o)
+                o2[-1] = rng.choice([m for m in MODES if m != o[-1]])
+                ops.insert(rng.randint(ops.index(o) + 1, len(ops)), o2)
         if ctx.kind == "predefined":
             # products whose RESULT type is quantised although neither operand is
             from props import C02
